@@ -43,12 +43,15 @@ def correspond(ctx):
     cases = [(2, 0.1), (3, 0.1), (5, 0.2), (7, 0.1), (10, 0.1), (1, 0.1)]  # corpus: 0.2/0.1, 0.3/0.1, ...
     for _ in range(ctx.scale(1500, 40000)):
         u = ctx.rng.random()
-        dt = float(ctx.rng.choice(DTS)) if u < 0.7 else float(10 ** ctx.rng.uniform(-4, 1))
+        # common steps, steps over five decades, and time axes in other units (nanoseconds in seconds, ... : 1e-12 .. 1e3)
+        dt = float(ctx.rng.choice(DTS)) if u < 0.6 else float(10 ** ctx.rng.uniform(-4, 1)) if u < 0.8 else float(
+            ctx.rng.choice([1, 2, 2.5, 5]) * 10.0 ** int(ctx.rng.integers(-12, 4)))
         k = int(ctx.rng.integers(1, 41)) if ctx.rng.random() < 0.8 else int(ctx.rng.integers(41, 3000))
         cases.append((k, dt))
     exprs, impl, meta = [], [], []
     for (k, dt) in cases:
-        T = float(k * dt) if ctx.rng.random() < 0.7 else float(round(k * dt, 12))
+        # the user's elapsed_time: the float product, or the decimal they would type (12 decimals / 10 significant digits)
+        T = float(k * dt) if ctx.rng.random() < 0.7 else (float(round(k * dt, 12)) if dt >= 1e-4 else float(f"{k * dt:.10e}"))
         p = params(T, dt)
         times = [float(t) for t in p.times]
         impl.append((len(times), times[0].hex(), times[min(1, len(times) - 1)].hex(), times[-1].hex()))
@@ -70,7 +73,7 @@ def correspond(ctx):
         why = None
         if len(times) != k + 1:
             why = f"time grid has {len(times)} points, expected k+1 = {k + 1}"
-        elif times[0] != 0.0 or abs(times[-1] - T) > 1e-9 * max(T, dt) + 2e-12:
+        elif times[0] != 0.0 or abs(times[-1] - T) > 1e-9 * max(T, dt) + (2e-12 if dt >= 1e-4 else 0.0):
             why = f"time grid runs from {times[0]} to {times[-1]}, expected 0 .. {T}"
         elif any(abs(times[j] - j * dt) > 1e-9 * max(T, dt) for j in (1, len(times) // 2, len(times) - 1)):
             why = "grid does not advance by dt"
